@@ -362,12 +362,12 @@ def run(ctx):
     ctx.cov.update({
         "evaluations": len(ssa_res) + len(sig_res) + len(verdicts) + len(verdicts2) + beh["compared"],
         "distinct_nontrivial": len(set(t for t, a, _ in ssa_res if re.search(r"M\[\d", a))),
-        "rule": "ssa: distinct modules (repo tests/*.sam, generated typed programs with every binding form, ill-scoped identifier-swap mutants) whose analysis resolved at least one use; sig: modules with random duplicate class/member/variant names; metamorphic: generated accepted+rejected programs x rewrites {rename-local, reorder, paren, wrap (block), annotate (accepted only), split-modules}; behaviour: wasm output under Node 22",
+        "rule": "ssa: distinct modules (repo tests/*.sam, generated typed programs with every binding form, ill-scoped identifier-swap mutants) whose analysis resolved at least one use; sig: modules with random duplicate class/member/variant names; metamorphic: generated accepted+rejected programs (generic callees with inferred type arguments taking multi-parameter lambdas, method references, nested generic calls, tuples, generic methods) x rewrites {rename-local, reorder, paren x2, wrap (block) x2, annotate-one per site (lambda parameter / let / type-argument list), annotate-subset, annotate-all (accepted only), split-modules}; behaviour: wasm output under Node 22",
         "samples": samples, "traces_validated_against_impl": len(ssa_res) + len(sig_res),
         "histograms": hist,
         "partial": ["scope_rename_binding_partial holds under the side condition that the new name is fresh for the module",
                     "signature_perm_invariant requires pairwise distinct names; with duplicates the last declaration wins (signature_dup_order_counterexample) — exactly the case in which the checker reports a name collision"],
-        "pending": ["annotation / explicit-type-argument / module-splitting / block-wrapping rewrites go through the inference engine and are covered by the metamorphic oracle only"]})
+        "pending": ["annotation / explicit-type-argument / module-splitting / block-wrapping rewrites go through the inference engine and are covered by the metamorphic oracle only (each annotation site individually, in random subsets, and all at once)"]})
     ctx.assumptions += ["locations of distinct syntax nodes are distinct (the harness numbers Locations)",
                         "annotate rewrite is applied to accepted programs only (inferred types are known by construction: int)"]
     return ctx.finish(res, trusted=common.TRUSTED_COMMON + [
